@@ -229,6 +229,11 @@ class RollingApply(RollingReduction):
 class RollingCov(RollingReduction):
     how = "cov"
 
+    def _simplify_up(self, parent, dependents):
+        # Pairwise result: every column contributes a row per window to each
+        # output column, so the input columns can't be pruned
+        return
+
 
 class Rolling:
     """Aggregate using one or more operations
